@@ -4,6 +4,7 @@ import (
 	"fmt"
 	"math/rand"
 	"reflect"
+	"time"
 
 	yae "github.com/goghcrow/yae"
 	"github.com/goghcrow/yae/conv"
@@ -112,7 +113,121 @@ func c15ErrorCases() map[string]interface{} {
 	}
 }
 
+// Go types declared inside different functions may share package path and
+// name ("row"); they are different types and convert independently.
+func c15LocalA() (empty, full interface{}, t *ref.Ty, v *ref.V) {
+	type row struct {
+		A float64 `yae:"a"`
+		B string  `yae:"b"`
+	}
+	t = ref.TObj(ref.F("a", ref.TNum), ref.F("b", ref.TStr))
+	return []row{}, []row{{1, "x"}}, t, ref.VObj(t, ref.VNum(1), ref.VStr("x"))
+}
+
+func c15LocalB() (empty, full interface{}, t *ref.Ty, v *ref.V) {
+	type row struct {
+		N  []string `yae:"n"`
+		Ok bool     `yae:"ok"`
+	}
+	t = ref.TObj(ref.F("n", ref.TList(ref.TStr)), ref.F("ok", ref.TBool))
+	return []row{}, []row{{[]string{"p"}, true}}, t, ref.VObj(t, ref.VList(ref.TStr, ref.VStr("p")), ref.VBool(true))
+}
+
+func c15LocalC() (empty, full interface{}, t *ref.Ty, v *ref.V) {
+	type row struct {
+		A string `yae:"a"` // same field name as in c15LocalA, other type
+	}
+	t = ref.TObj(ref.F("a", ref.TStr))
+	return []row{}, []row{{"s"}}, t, ref.VObj(t, ref.VStr("s"))
+}
+
+func c15LocalD() (empty, full interface{}, t *ref.Ty, v *ref.V) {
+	type row struct {
+		B string  `yae:"b"`
+		A float64 `yae:"a"`
+		C float64 `yae:"c"`
+	}
+	t = ref.TObj(ref.F("b", ref.TStr), ref.F("a", ref.TNum), ref.F("c", ref.TNum))
+	return map[string]row{}, map[string]row{"k": {"y", 2, 3}}, t, ref.VObj(t, ref.VStr("y"), ref.VNum(2), ref.VNum(3))
+}
+
+func c15SameNamedTypes(c *run.Ctx) {
+	fs := []func() (interface{}, interface{}, *ref.Ty, *ref.V){c15LocalA, c15LocalB, c15LocalC, c15LocalD}
+	perms := [][]int{{0, 1, 2, 3}, {3, 2, 1, 0}, {2, 0, 3, 1}, {1, 3, 0, 2}}
+	for pi, perm := range perms {
+		for _, emptyFirst := range []bool{true, false} {
+			// the process-wide state depends on what was converted before: each
+			// order in its own case; workers split them
+			if !c.Mine(pi*2 + map[bool]int{true: 0, false: 1}[emptyFirst]) {
+				continue
+			}
+			perm, emptyFirst := perm, emptyFirst
+			c.Case(fmt.Sprintf("same-named-types/%d/%v", pi, emptyFirst), func() {
+				for _, fi := range perm {
+					empty, full, t, v := fs[fi]()
+					wantEmpty, wantFull := ref.VList(t), ref.VList(t, v)
+					if fi == 3 {
+						wantEmpty, wantFull = ref.VMap(ref.TStr, t), ref.VMap(ref.TStr, t, ref.KV{K: ref.VStr("k"), V: v})
+					}
+					order := []struct {
+						g interface{}
+						w *ref.V
+					}{{empty, wantEmpty}, {full, wantFull}}
+					if !emptyFirst {
+						order[0], order[1] = order[1], order[0]
+					}
+					for _, o := range order {
+						checkConv(c, fmt.Sprintf("function-local type #%d named row: %#v", fi, o.g), reflect.ValueOf(o.g), o.w)
+					}
+					te, _ := conv.TypeOf(empty)
+					tf, _ := conv.TypeOf(full)
+					c.Count("type_stability_pairs", 1)
+					if te == nil || tf == nil || !types.Equals(te, tf) {
+						c.Violation("conv-type-unstable", fmt.Sprintf("the empty and the non-empty value of one Go type (function-local type #%d named row) get different types %v and %v", fi, te, tf), nil)
+					}
+				}
+				c.Distinct(fmt.Sprintf("same-named-types/%d/%v", pi, emptyFirst))
+			})
+		}
+	}
+}
+
+// time keys that differ only below the second stay distinct entries
+func c15TimeKeys(c *run.Ctx) {
+	if !c.Mine(5) {
+		return
+	}
+	c.Case("time-keys", func() {
+		base := time.Unix(1655296245, 0)
+		for _, step := range []time.Duration{time.Nanosecond, time.Microsecond, time.Millisecond, 250 * time.Millisecond, time.Second, time.Hour} {
+			m := map[time.Time]float64{}
+			want := ref.VMap(ref.TTime, ref.TNum)
+			for i := 0; i < 5; i++ {
+				k := base.Add(time.Duration(i) * step)
+				m[k] = float64(i)
+				want.MapPut(ref.VTime(k), ref.VNum(float64(i)))
+			}
+			checkConv(c, fmt.Sprintf("map[time.Time]float64 with 5 keys %v apart", step), reflect.ValueOf(m), want)
+			// and the entries can be looked up one by one
+			v, err := conv.ValOf(m)
+			if err != nil {
+				continue
+			}
+			for k, x := range m {
+				got, ok := v.Map().Get(val.Time(k))
+				if !ok || got.Num().V != x {
+					c.Violation("conv-content", fmt.Sprintf("map[time.Time]float64 with keys %v apart: the entry for %v reads %v (present=%v), the Go map holds %v", step, k, safeStr(got), ok, x), nil)
+					break
+				}
+			}
+		}
+		c.Distinct("time-keys")
+	})
+}
+
 func runC15(c *run.Ctx) {
+	c15SameNamedTypes(c)
+	c15TimeKeys(c)
 	n := c.Pick(4000, 600000)
 	for i := 0; i < n; i++ {
 		if !c.Mine(i) {
@@ -311,7 +426,7 @@ func init() {
 	run.Register(&run.Spec{
 		ID: "C15", Run: runC15, Level: "exploration",
 		Rule: "Go types built by reflection (StructOf / SliceOf / ArrayOf / MapOf / PtrTo / interface{} boxing, depth <= 3): every numeric kind with its extreme values (MaxUint64, 2^63, 2^53+1, MaxFloat32 ...), strings incl. invalid UTF-8, time.Time and pointers to it, structs with renamed / untagged / optional fields (tag spelling variants), nil and non-nil pointers / slices / maps in optional and plain fields, empty and non-empty containers (sizes 0-3 and around 8..256, 513), maps keyed by string / integer kinds / time, large uniform slices / arrays / maps of one repeated element whose untagged nil-able parts may be nil; " +
-			"monitor: reference expectation generated together with the value: ValOf succeeds, the result is well-formed (walker), TypeOf(v) == ValOf(v).Type == type dictated by the Go shape, contents equal (numbers as doubles, instants, order, entries, fields under tag names); for interface-free shapes whose nil-able parts are non-nil or optional: two random values get equal types and 'compile against the first, invoke with the second' is accepted (as map entry, struct, pointer to struct); 26 error classes (nil, mixed interface data, nil / non-nil untagged pointers in one slice, unsupported kinds, depth 101 / 150, duplicate field names) must return an error from ValOf / TypeOf / ValEnvOf / TypeEnvOf. distinct = distinct Go type",
+			"monitor: reference expectation generated together with the value: ValOf succeeds, the result is well-formed (walker), TypeOf(v) == ValOf(v).Type == type dictated by the Go shape, contents equal (numbers as doubles, instants, order, entries, fields under tag names); for interface-free shapes whose nil-able parts are non-nil or optional: two random values get equal types and 'compile against the first, invoke with the second' is accepted (as map entry, struct, pointer to struct); 26 error classes (nil, mixed interface data, nil / non-nil untagged pointers in one slice, unsupported kinds, depth 101 / 150, duplicate field names) must return an error from ValOf / TypeOf / ValEnvOf / TypeEnvOf. Go types declared inside different functions under one name, empty and non-empty values in every conversion order; map[time.Time] keys 1 ns .. 1 h apart. distinct = distinct Go type",
 		Assume:    []string{"map keys that collide as doubles are not generated (inherent to 'numbers as doubles')"},
 		MinEvents: 5000, EventKey: "values_converted",
 	})
